@@ -23,7 +23,22 @@ M = [
   "			inode->data.file_ext.nlink = n->link_count;\n		} else {", "			inode->data.file_ext.nlink = n->link_count - 1;\n		} else {"),
  ("write-inode-devno-basic", "lib/sqfs/src/write_inode.c", ".devno = htole32(n->data.dev.devno),", ".devno = htole32(n->data.dev.devno & 0x0FFFFFFF),"),
  ("write-inode-devno-ext", "lib/sqfs/src/write_inode.c", ".devno = htole32(n->data.dev_ext.devno),", ".devno = htole32(n->data.dev_ext.devno >> 8 << 8),"),
- ("packfile-link-flag-dropped", "bin/gensquashfs/src/fstree_from_file.c", "	ent->flags = is_glob ? 0 : cb->flags;\n", "", "patched"),
+ ("packfile-link-flag-dropped", "bin/gensquashfs/src/fstree_from_file.c", "	ent->flags = is_glob ? 0 : cb->flags;\n", ""),
+ # ---- added with the review round (blind spots of review D, and the repairs that are in /repo now)
+ ("serialize-gid-overflow-ignored", "lib/common/src/writer/serialize_fstree.c",
+  "					&inode->base.gid_idx);\n	if (ret)\n		goto out;", "					&inode->base.gid_idx);"),
+ ("serialize-uid-overflow-ignored", "lib/common/src/writer/serialize_fstree.c",
+  "					&inode->base.uid_idx);\n	if (ret)\n		goto out;", "					&inode->base.uid_idx);"),
+ ("inode-set-file-size-no-promotion", "lib/sqfs/src/inode.c", "		if (size > 0x0FFFFFFFFUL) {", "		if (0) {"),
+ ("inode-set-block-start-no-promotion", "lib/sqfs/src/inode.c", "		if (location > 0x0FFFFFFFFUL) {", "		if (0) {"),
+ ("xattr-id-table-4th-block-start-off", "lib/sqfs/src/xattr/xattr_writer_flush.c", "			locations[i++] = block;", "			{ locations[i] = block + (i >= 3 ? 2 : 0); i++; }"),
+ ("stat-ext-device-devno", "bin/rdsquashfs/src/stat.c", "		devno = inode->data.dev_ext.devno;", "		devno = inode->data.dev_ext.devno & 0xFFFFF;"),
+ ("hardlink-detection-off", "lib/common/src/dir_tree_iterator.c", "	if (!(cfg->flags & DIR_SCAN_NO_HARDLINKS)) {", "	if (0) {"),
+ ("forced-uid-not-on-root", "bin/gensquashfs/src/mkfs.c", "		sqfs.fs.root->uid = opt.force_uid_value;", "		;"),
+ ("forced-gid-not-on-implicit-dirs", "bin/gensquashfs/src/mkfs.c", "		sqfs.fs.defaults.gid = opt.force_gid_value;", "		;"),
+ ("keep-xattr-empty-dropped-again", "bin/gensquashfs/src/apply_xattr.c", "		if (vallen >= 0) {", "		if (vallen > 0) {"),
+ ("link-target-not-canonicalised", "lib/fstree/src/fstree.c", "			if (canonicalize_name(ptr)) {", "			if (0) {"),
+ ("link-to-directory-accepted", "lib/fstree/src/hardlink.c", "	if (S_ISDIR(node->mode)) {\n		errno = EPERM;\n		return -1;\n	}", ""),
  ("packfile-mode-base-10", "bin/gensquashfs/src/fstree_from_file.c",
   "if (parse_uint_oct(line->args[2], -1, NULL, 0, 07777, &mode))", "if (parse_uint(line->args[2], -1, NULL, 0, 07777, &mode))"),
  ("dir-writer-257-entries-per-header", "lib/sqfs/src/dir_writer.c", "if (count == SQFS_MAX_DIR_ENT)", "if (count == SQFS_MAX_DIR_ENT + 1)"),
@@ -88,7 +103,7 @@ def main():
         if only and name not in only:
             continue
         sh(["git", "-C", str(repo), "checkout", "-q", "."])
-        if need == "patched" or base == "patched":
+        if (need == "patched" or base == "patched") and False:      # every C01e repair is in /repo now
             for p in sorted((VERIF / "fixes").glob("C01e-*.patch")):
                 r = sh(["git", "-C", str(repo), "apply", str(p)])
                 if r.returncode:
